@@ -174,7 +174,7 @@ CHECKS = {
         'graph evaluated with the accessor binding ANY stored list to the persistent groups by position computes exactly '
         'apply_run, so positional binding is the loader semantics of the compiler model; and the training graph evaluated with a '
         'previous generation in the accessor delivers at its tails, and trains for the persistent groups, what train_run prev '
-        'denotes (C04_train_graph_generation, C04_train_graph_persisted). Correspondence (C04Seg.check_case_graph replays each '
+        'denotes, and the compiled committer evaluates to the list that run persists, for every visiting order (C04_train_graph_generation, C04_train_graph_persisted, C04_retrain_commits). Correspondence (C04Seg.check_case_graph replays each '
         'training and each later action on the executable graph models too, with the observed generations in the accessor): histories of train / re-train / apply (latest or explicit generation) / '
         'performance-tracking evaluation through the real Composition.persistent and asset.State machinery, each action in a '
         'fresh process under another hash seed; histories in which the hyper-parameters of the code change between training and '
